@@ -90,7 +90,11 @@ fn build_server(obs: &Arc<Obs>, reg: &PeerRegistry) -> WebSocketServer {
         });
     let reg2 = reg.clone();
     let (oc, od) = (obs.clone(), obs.clone());
+    // the per-connection outbound queue is varied too (256 = default, 2, 1)
+    static BUILDS: AtomicU64 = AtomicU64::new(0);
+    let outcap = [256usize, 2, 1][(BUILDS.fetch_add(1, Ordering::SeqCst) % 3) as usize];
     WebSocketServer::new(router)
+        .with_outbound_capacity(outcap)
         .with_peer_registry(reg.clone())
         .on_peer_connect(move |peer| {
             oc.connects.fetch_add(1, Ordering::SeqCst);
